@@ -30,7 +30,7 @@ for p in props:
         "engine": "sftpcheck",
         "level_claimed": {"category": cat, "text": text, "design_ref": ref},
         "level_note": note,
-        "technique": technique,
+        "technique": technique + "; decided on the source after name and shape normalisation in an in-memory overlay (symbols renamed relative to the reference symbol table read under their reference names; helpers unknown to it inlined back with the x/tools inliner and immediately invoked literals flattened), with a phi- and nil-test-sensitive path search; thorough tier: extra build configurations, the property's seeded faults as positive and stored behaviour-preserving refactorings as negative controls",
     })
 
 na = []
@@ -54,11 +54,11 @@ m = {
         "name": "sftpcheck",
         "path": "/verif/checker",
         "serves_properties": sorted(CLAIMS),
-        "kind_free_text": "repository-specific static analyser over go/packages + go/ssa + VTA call graph (golang.org/x/tools v0.50.0, go1.26.8): path rules on SSA CFGs, who-may-call/who-may-write, locksets, value provenance, table extraction, zone-domain bounds prover",
+        "kind_free_text": "repository-specific static analyser over go/packages + go/ssa + VTA call graph (golang.org/x/tools v0.50.0, go1.26.8): path rules on SSA CFGs (phi- and nil-test-sensitive reachability), who-may-call/who-may-write, locksets, value provenance, table extraction, linear (Fourier-Motzkin) bounds prover; source normalisation by overlay (rename canonicalisation against an embedded symbol table, de-extraction with the vendored x/tools inliner)",
     }],
     "checks": checks,
     "not_applicable": na,
-    "notes": "Technique family: static analysis only. Every check re-loads /repo's working tree. Known findings: /verif/known_findings.txt. Seeded faults used to test the checks: /verif/seeded/.",
+    "notes": "Technique family: static analysis only. Every check re-loads /repo's working tree; nothing of pkg/sftp is ever built or run by a check. Known findings: /verif/known_findings.txt. Seeded faults (positive controls): /verif/seeded/. Behaviour-preserving refactorings (negative controls): /verif/refactors/. Demonstrations of the defects found and repaired: /verif/findings/.",
 }
 json.dump(m, open(os.path.join(ROOT, "MANIFEST.json"), "w"), indent=1)
 print("claimed:", sorted(CLAIMS), "not applicable:", [x["property_id"] for x in na])
